@@ -395,6 +395,33 @@ private def readSurf (st : RState) (idTok : String) (body : List String) : RStat
         if xs.length != k.arity then st := err st s!"SURF {id}: {kw} expects {k.arity} parameters, got {xs.length}"
         return { st with file := { st.file with surfs := st.file.surfs ++ [(id, { kind := k, ps := xs, tr })] } }
 
+/-- the words after an optional NB_ATOM flag -/
+def dropNbAtom (r : List String) : List String := match r with | "NB_ATOM" :: r => r | r => r
+
+/-- the counter of the COMPOSITION reader on one line of words: how many nuclide lines are still expected after it,
+`none` when the line contradicts the count declared by the last header (a header or the end of the block while
+nuclides are still expected, a nuclide line when none is) -/
+def compCount (left : Nat) (ws : List String) : Option Nat :=
+  match ws with
+  | [] => some left
+  | ["END_COMPOSITION"] => if left != 0 then none else some 0
+  | [_] => some left
+  | "POINT_WISE" :: _ :: _ :: [n] => if left != 0 then none else some (n.toNat?.getD 0)
+  | "DENSITY" :: _ :: _ :: _ :: r =>
+      if left != 0 then none else
+      match dropNbAtom r with
+      | [n] => some (n.toNat?.getD 0)
+      | _ => some 0
+  | [_, _] => if left == 0 then none else some (left - 1)
+  | _ => some left
+
+/-- the counter over the lines of a block -/
+def compCountRun (left : Nat) : List (List String) → Option Nat
+  | [] => some left
+  | ws :: r => match compCount left ws with
+    | none => none
+    | some l => compCountRun l r
+
 private def readLine (st : RState) (line : String) : RState :=
   let (code, comment) := match line.splitOn "//" with
     | [] => ("", "")
@@ -415,7 +442,7 @@ private def readLine (st : RState) (line : String) : RState :=
   | 0, ["BOUNDARY_CONDITION"] => { st with mode := 3 }
   | 0, _ => st          -- LANG, GEOMETRY, TITLE, HASH_TABLE, ENDG
   | 1, ["END_COMPOSITION"] =>
-      let st := if st.compLeft != 0 then err st "COMPOSITION: nuclide count mismatch" else st
+      let st := if (compCount st.compLeft ts).isNone then err st "COMPOSITION: nuclide count mismatch" else st
       { st with mode := 0, compLeft := 0 }
   | 1, [n] =>
       if st.file.compDeclared.isNone && st.file.comps.isEmpty then
@@ -424,11 +451,13 @@ private def readLine (st : RState) (line : String) : RState :=
         | none => err st s!"COMPOSITION: bad count {n}"
       else err st s!"COMPOSITION: stray token {n}"
   | 1, "POINT_WISE" :: _temp :: name :: [n] =>
-      let st := if st.compLeft != 0 then err st "COMPOSITION: nuclide count mismatch" else st
+      let cnt := compCount st.compLeft ts
+      let st := if cnt.isNone then err st "COMPOSITION: nuclide count mismatch" else st
       let c : TComp := { kind := "POINT_WISE", name, density := none, nbAtom := false, nuclides := [] }
-      { st with compLeft := n.toNat?.getD 0, file := { st.file with comps := st.file.comps ++ [c] } }
+      { st with compLeft := cnt.getD (n.toNat?.getD 0), file := { st.file with comps := st.file.comps ++ [c] } }
   | 1, "DENSITY" :: _temp :: name :: dens :: r =>
-      let st := if st.compLeft != 0 then err st "COMPOSITION: nuclide count mismatch" else st
+      let cnt := compCount st.compLeft ts
+      let st := if cnt.isNone then err st "COMPOSITION: nuclide count mismatch" else st
       let (nb, r) := match r with | "NB_ATOM" :: r => (true, r) | r => (false, r)
       let st := match parseFloat? dens with
         | some x => if finite x then st else err st s!"COMPOSITION {name}: non-finite density"
@@ -436,10 +465,10 @@ private def readLine (st : RState) (line : String) : RState :=
       match r with
       | [n] =>
         let c : TComp := { kind := "DENSITY", name, density := some dens, nbAtom := nb, nuclides := [] }
-        { st with compLeft := n.toNat?.getD 0, file := { st.file with comps := st.file.comps ++ [c] } }
+        { st with compLeft := cnt.getD (n.toNat?.getD 0), file := { st.file with comps := st.file.comps ++ [c] } }
       | _ => err st s!"COMPOSITION {name}: malformed DENSITY line"
   | 1, [nuc, frac] =>
-      if st.compLeft == 0 then err st s!"COMPOSITION: unexpected nuclide line {nuc}" else
+      if (compCount st.compLeft ts).isNone then err st s!"COMPOSITION: unexpected nuclide line {nuc}" else
       let st := match parseFloat? frac with
         | some x => if finite x then st else err st s!"COMPOSITION: non-finite amount for {nuc}"
         | none => err st s!"COMPOSITION: bad amount '{frac}' for {nuc}"
